@@ -10,6 +10,9 @@ after a successful sort every node comes after the same-graph producers of every
 or by a node nested in it; a graph already in such an order is left as it was; a dependency cycle
 gives ValueError and no graph's order changes; two isomorphic object graphs built in different
 allocation orders sort identically.
+Stateful sequences: build, sort, edit the SAME objects (replace_input_with / resize_inputs, inserts into
+nested graphs, moving a node to another place or graph), sort again ...; every sort is compared with the
+model applied to the structure of that moment and followed by the oracle (no hidden state between sorts).
 """
 from __future__ import annotations
 
@@ -37,6 +40,7 @@ THEOREMS = [
     "IrVerif.Sort.C12_fixpoint_graph",
     "IrVerif.Sort.C12_fixpoint",
     "IrVerif.Sort.C12_deterministic",
+    "IrVerif.Sort.C12_stateless",
 ]
 ASSUMPTIONS = [
     "heapq on (negative position, node) pairs with distinct positions is modelled as extract-maximum-position; "
@@ -234,7 +238,10 @@ def gen_case(rng, quick=True):
             shared = True
     entry = rng.choice(["graph", "graph", "graph", "function", "pass", "subgraph"])
     variant = rng.randrange(4)
-    return {"spec": root, "mode": mode, "perm": how, "entry": entry, "variant": variant, "sub": rng.randrange(1 << 30), "shared": shared}
+    steps = []
+    if not shared and rng.random() < 0.4:  # stateful: sort, edit the same objects, sort again ...
+        steps = [rng.randrange(1 << 30) for _ in range(rng.choice([1, 2, 2, 3, 4]))]
+    return {"spec": root, "mode": mode, "perm": how, "entry": entry, "variant": variant, "sub": rng.randrange(1 << 30), "shared": shared, "steps": steps}
 
 
 # --------------------------------------------------------------------------- real objects
@@ -520,7 +527,16 @@ def flat_cycle(b: Built, root):
 # --------------------------------------------------------------------------- one case
 
 
-def run_real(b: Built, case):
+def pick_root(b: Built, case):
+    """the graph object that is sorted in this case (fixed for the whole sequence)"""
+    if case["entry"] == "subgraph":
+        subs = [g for g in tree_graphs(b, b.root)][1:]
+        if subs:
+            return subs[case["sub"] % len(subs)]
+    return b.root
+
+
+def run_real(b: Built, case, root=None):
     """call the real sort through the requested entry point; returns (sorted root graph objects, outcome)"""
     ir = b.ir
     entry = case["entry"]
@@ -547,9 +563,7 @@ def run_real(b: Built, case):
             b.keep.append(model)
             TopologicalSortPass()(model)
         elif entry == "subgraph":
-            subs = [g for g in tree_graphs(b, b.root)][1:]
-            if subs:
-                roots = [subs[case["sub"] % len(subs)]]
+            roots = [root if root is not None else pick_root(b, case)]
             roots[0].sort()
         return roots, "ok"
     except ValueError:
@@ -558,16 +572,142 @@ def run_real(b: Built, case):
         return roots, "raised:" + type(e).__name__
 
 
+def _uniq(objs):
+    seen, res = set(), []
+    for o in objs:
+        if id(o) not in seen:
+            seen.add(id(o))
+            res.append(o)
+    return res
+
+
+def apply_edit(b: Built, seed):
+    """one structural edit of the real object tree between two sorts, chosen deterministically from `seed`
+    over the tree as it is now (enumerations are in pre-order, hence independent of allocation order).
+    None of these edits adds or moves a node of the *sorted* graph unless it says so: dependencies change
+    through input edits, through edits inside nested graphs, and through moving nodes."""
+    import random
+
+    if isinstance(seed, dict):  # explicit edit (corpus): {"op": "replace", "node": id, "slot": i, "value": ref | None}
+        u = b.node[seed["node"]]
+        ref = seed.get("value")
+        v = None if ref is None else b.node[ref[1]].outputs[ref[2]]
+        u.replace_input_with(seed["slot"], v)
+        return f"replace_input_with(n{seed['node']}, {seed['slot']})"
+    rng = random.Random(seed)
+    ir = b.ir
+    nodes = _uniq(_pre(b, b.root))
+    graphs = _uniq(tree_graphs(b, b.root))
+    owner = {}
+    for n in nodes:
+        for sg in b.sub_graphs(n):
+            owner[id(sg)] = n
+
+    def chain(g):
+        res = []
+        while g is not None and len(res) < 64:
+            res.append(g)
+            o = owner.get(id(g))
+            g = o.graph if o is not None else None
+        return res
+
+    def visible_values(u, ill=False):
+        ch = {id(g) for g in chain(u.graph)}
+        vals = [v for m in nodes if (ill or id(m.graph) in ch) for v in m.outputs]
+        for g in chain(u.graph):
+            vals += list(g.inputs)
+        return vals
+
+    kind = rng.choice(["replace", "replace", "replace", "replace", "resize", "insert", "insert", "move", "swap"])
+    if kind == "replace":
+        cands = [n for n in nodes if len(n.inputs)]
+        if cands:
+            u = rng.choice(cands)
+            vals = visible_values(u, ill=rng.random() < 0.1)
+            v = None if (not vals or rng.random() < 0.1) else rng.choice(vals)
+            i = rng.randrange(len(u.inputs))
+            u.replace_input_with(i, v)
+            return f"replace_input_with(n{b.nid[id(u)]}, {i})"
+        kind = "resize"
+    if kind == "resize" and nodes:
+        u = rng.choice(nodes)
+        k = rng.randrange(0, 5)
+        u.resize_inputs(k)
+        vals = visible_values(u)
+        for i in range(k):
+            if u.inputs[i] is None and vals and rng.random() < 0.7:
+                u.replace_input_with(i, rng.choice(vals))
+        return f"resize_inputs(n{b.nid[id(u)]}, {k})"
+    if kind == "insert":
+        gr = rng.choice(graphs[1:] if len(graphs) > 1 and rng.random() < 0.8 else graphs)
+        new_id = max(b.node) + 1 if b.node else 0
+        anchor_nodes = list(gr)
+        pool = [v for m in anchor_nodes for v in m.outputs]
+        for g in chain(gr)[1:]:
+            pool += [v for m in g for v in m.outputs]
+        ins = [rng.choice(pool) for _ in range(rng.randrange(0, 3))] if pool else []
+        node = ir.Node("", f"Op{new_id}", ins, num_outputs=rng.choice([1, 1, 2]), name=f"n{new_id}")
+        b.nid[id(node)] = new_id
+        b.node[new_id] = node
+        if anchor_nodes:
+            a = rng.choice(anchor_nodes)
+            (gr.insert_before if rng.random() < 0.7 else gr.insert_after)(a, node)
+            # some existing node of the graph starts using the new node
+            if rng.random() < 0.6:
+                c = rng.choice(anchor_nodes)
+                if len(c.inputs):
+                    c.replace_input_with(rng.randrange(len(c.inputs)), node.outputs[0])
+        else:
+            gr.append(node)
+        return f"insert n{new_id} into g{b.gidmap[id(gr)]}"
+    if kind in ("move", "swap") and nodes:
+        m = rng.choice(nodes)
+        inside = {id(g) for g in tree_graphs_of_node(b, m)}
+        targets = [g for g in graphs if id(g) not in inside]
+        if kind == "swap":
+            targets = [m.graph]
+        tgt = rng.choice(targets)
+        src = m.graph
+        src.remove(m)
+        others = list(tgt)
+        if others and rng.random() < 0.7:
+            tgt.insert_before(rng.choice(others), m)
+        else:
+            tgt.append(m)
+        return f"move n{b.nid[id(m)]} g{b.gidmap[id(src)]}->g{b.gidmap[id(tgt)]}"
+    return "noop"
+
+
+def tree_graphs_of_node(b: Built, node):
+    for sg in b.sub_graphs(node):
+        yield from tree_graphs(b, sg)
+
+
 def do_case(case, part):
-    """build, snapshot, encode, run the real code, evaluate the oracle; returns the model request + observation"""
+    """build the real objects, then sort; for a stateful case keep editing the same objects and sorting again.
+    Every sort is compared with the model applied to the structure as it is at that moment, and followed by
+    the property oracle.  Returns one record per sort (None when the case ended early)."""
+    b = Built(case["spec"], case["variant"], seed=case["sub"])
+    root = pick_root(b, case)
+    recs = []
+    r = sort_step(b, case, root, part, 0, [])
+    if r is None:
+        return None
+    recs.append(r)
+    edits = []
+    for k, seed in enumerate(case.get("steps") or [], start=1):
+        edits.append(apply_edit(b, seed))
+        r = sort_step(b, case, root, part, k, list(edits))
+        if r is None:
+            break
+        recs.append(r)
+    return {"recs": recs, "outcome": [x["outcome"] for x in recs], "after": [x["after"] for x in recs]}
+
+
+def sort_step(b: Built, case, root, part, step, edits):
+    """snapshot, encode, run the real sort, evaluate the oracle; returns the model request + observation"""
     spec = case["spec"]
-    b = Built(spec, case["variant"], seed=case["sub"])
     entry = case["entry"]
-    root = b.root
-    if entry == "subgraph":
-        subs = [g for g in tree_graphs(b, b.root)][1:]
-        if subs:
-            root = subs[case["sub"] % len(subs)]
     before = b.orders()
     req_graph = b.encode(root)
     tree = [b.gidmap[id(g)] for g in tree_graphs(b, root)]
@@ -585,9 +725,10 @@ def do_case(case, part):
     dupnodes = len({x[0] for x in pre_universe}) != len(pre_universe)  # a shared Graph object with nodes
     if (dupnodes or len(set(tree)) != len(tree)) and not case.get("shared"):
         part.disagree("encoding not well formed (duplicate node or graph id): hypothesis WF of the theorems", {"case": case})
-    _roots, outcome = run_real(b, case)
+    _roots, outcome = run_real(b, case, root)
     after = b.orders()
-    canon = {"spec": spec, "entry": entry, "sub": case["sub"] if entry == "subgraph" else 0}
+    canon = {"spec": spec, "entry": entry, "sub": case["sub"] if entry == "subgraph" else 0,
+             "steps": (case.get("steps") or [])[:step]}
     part.case(
         canon,
         nontrivial=n_nodes >= 2,
@@ -602,8 +743,11 @@ def do_case(case, part):
         preordered=all(pre_ordered.values()),
         shared_graph=("nodes-twice" if dupnodes else ("empty" if len(set(tree)) != len(tree) else "no")),
         fixpoint_clause=("checked" if ws and outcome == "ok" and any(pre_ordered.values()) else "n/a"),
+        step=step,
     )
-    rec = {"case": case}
+    if edits:
+        part.count("edit=" + edits[-1].split("(")[0].split(" ")[0])
+    rec = {"case": case, "step": step, "edits": edits}
     sig_entry = {"graph": "Graph.sort", "function": "Function.sort", "pass": "TopologicalSortPass", "subgraph": "Graph.sort(subgraph)"}[entry]
 
     # ---- oracle
@@ -653,7 +797,7 @@ def do_case(case, part):
                     part.fail(f"{sig_entry}:ordered-graph-changed", f"graph {gid} was already ordered but changed", rec)
                     break
         # sorting again changes nothing (the result is in order)
-        _r2, outcome2 = run_real(b, case)
+        _r2, outcome2 = run_real(b, case, root)
         if outcome2 != "ok" or (ws and b.orders() != after):
             part.fail(f"{sig_entry}:not-idempotent", "second sort changed the order or raised", rec)
     return {
@@ -666,7 +810,7 @@ def do_case(case, part):
         "impl_after": [[g, after[g]] for g in tree],
         "impl_universe": impl_universe,
         "pre_universe": pre_universe,
-        "case": case,
+        "case": case if step == 0 else dict(case, at_step=step, edits=edits),
         "outcome": outcome,
         "after": {str(k): v for k, v in after.items()},
     }
@@ -765,7 +909,7 @@ def _chunk(args):
                     "two isomorphic object graphs built in different allocation orders sort differently",
                     {"case": case, "variant2": case2["variant"]},
                 )
-            out.append(r)
+            out.extend(r["recs"])
     return part, out
 
 
